@@ -26,8 +26,19 @@ LoadTags(got, n, drop) ==
     ELSE IF Range(got.files) # { n.v.dir \o "/" \o f \o "." \o Ext : f \in FilesToRead(n.v) } THEN {"files-read"}
     ELSE IF HasDup(got.files) THEN {"files-read-twice"} ELSE {}
 
+\* the build-script API (TranslationsInfos::parse_at_dir): same verdict, the same files (files_paths is what
+\* rerun_if_locales_changed prints), the configured locales (default first) and namespaces
+BuildTags(ev, n, drop) ==
+    IF ~n.ok \/ drop THEN (IF ev.outcome = "Err" THEN {} ELSE {"build-expected-error-got:" \o ev.outcome})
+    ELSE IF ev.outcome # "Ok" THEN {"build-outcome:" \o ev.outcome}
+    ELSE (IF Range(ev.res.files) # { n.v.dir \o "/" \o f \o "." \o Ext : f \in FilesToRead(n.v) } THEN {"build-files"} ELSE {})
+         \cup (IF HasDup(ev.res.files) THEN {"build-files-twice"} ELSE {})
+         \cup (IF Range(ev.res.locales) # n.v.locales \/ HasDup(ev.res.locales) \/ ev.res.locales[1] # n.v.default THEN {"build-locales"} ELSE {})
+         \cup (IF ev.res.namespaces # (IF n.v.namespaces.p THEN n.v.namespaces.v ELSE None) THEN {"build-namespaces"} ELSE {})
+
 Tags(ev) ==
-    IF ev.ev = "Load"
+    IF ev.ev = "Build" THEN LET a == Cases[ev.case].abs IN BuildTags(ev, Normalise(a.raw), a.drop)
+    ELSE IF ev.ev = "Load"
     THEN LET a == Cases[ev.case].abs
              n == Normalise(a.raw) IN
          CfgTags(ev.cfg, n) \cup LoadTags(ev.load, n, a.drop)
